@@ -49,6 +49,15 @@ def run(ctx):
     rd = vlib.tlc_check(ctx.scratch, "WatchdogImpl", "WatchdogImpl_all_FALSE.cfg", workers=1, expect_violation="SparesResponsive")
     states += rd["distinct"]; trans += rd["generated"]
     ctx.log("R1: WatchdogImpl (one-slot ack channel) satisfies WatchdogObs for peers answering all / none / with a failure code / with duplicated answers; the unbuffered-channel configuration loses an acknowledgement and violates SparesResponsive as it must")
+    ind = None
+    if not quick and not ctx.replay:
+        # unbounded safety of the model for a responsive peer: inductive invariant, any budget, any number of rounds
+        t = vlib.apalache_check(ctx.scratch, "WatchdogInd", "IndInit", "IndInv", 1, "CInit")
+        t += vlib.apalache_check(ctx.scratch, "WatchdogInd", "Init", "IndInv", 0, "CInit")
+        t += vlib.apalache_check(ctx.scratch, "WatchdogInd", "IndInit", "Spared", 0, "CInit")
+        t += vlib.apalache_check(ctx.scratch, "WatchdogInd", "IndInit", "IndInv", 1, "CInitUnbuffered", expect_violation=True)
+        ind = "spec/WatchdogInd.tla: IndInv is inductive (Apalache, base + step), implies SparesResponsive and Bounded for MaxRetransmits <= 1000 and <= 10^6 rounds; not inductive with the unbuffered channel (%.0f s)" % t
+        ctx.log("Apalache: " + ind)
     if ctx.replay:
         cases = [json.load(open(ctx.replay))["case"]]
         g = dict(generated=0, distinct=0)
@@ -96,7 +105,7 @@ def run(ctx):
                     "R2: every budget x {answer all, answer all twice, stop after the n-th round, answer only the j-th copy, failing code, silence} x {answer delivered asynchronously, answer handled before the DWR's transport write returns}; "
                     "replayed on a real sm.Client (WatchdogInterval 60 ms, RetransmitInterval 30 ms) with a count-driven peer; server half: DWRs with boundary identifiers, with/without Origin-State-Id, to a handshaken server state machine. every script is non-trivial; distinct by script",
                samples=[dict(script=l["script"], obs=l["obs"]) for l in wd[0:len(wd):max(1, len(wd) // 3)]][:3],
-               exhaustive=True, rejected=len(bad), impl_conformance=conf, known_finding_hits={k: n for k, (n, _) in v.hits.items()})
+               exhaustive=True, rejected=len(bad), impl_conformance=conf, inductive_invariant=ind, known_finding_hits={k: n for k, (n, _) in v.hits.items()})
     rc = v.finish()
     vlib.write_evidence("C13", ctx.tier, ctx.seed, cov, ctx.wall(), v.nviol,
                         ["time is abstracted in the model (the retransmission timer fires only when no answer is pending)", "spacing is checked one-sidedly from monotonic stamps",
